@@ -160,6 +160,8 @@ def run_check(prop, tier='quick', seed=0, only=None, nproc=None, verbose=True):
         if verbose:
             print(*a, flush=True)
 
+    import shutil
+    shutil.rmtree(os.path.join(VERIF, 'replays', prop), ignore_errors=True)
     jobs = mod.jobs(tier)
     if only:
         jobs = [j for j in jobs if any(o in j['ob'] for o in only)]
@@ -317,7 +319,9 @@ def run_check(prop, tier='quick', seed=0, only=None, nproc=None, verbose=True):
                             'states = execution paths explored, transitions = SMT queries discharged (z3 %s); '
                             'every path tree was exhausted within the stated bounds unless a verdict below says otherwise'
                             % (os.path.join(repo_root(), 'src'), _z3_version())),
-            'obligations': sorted(obl.values(), key=lambda o: o['obligation']),
+            'obligations': len(obl),
+            'discharged': len([o for o in obl.values() if o['verdict'] in ('holds', 'known-finding')]),
+            'obligation_results': sorted(obl.values(), key=lambda o: o['obligation']),
             'functions_encoded': sorted(f for f in functions if f.startswith('xdoctest.')),
             'stubs': stubs,
             'final_queries': total.final_queries,
